@@ -223,8 +223,8 @@ impl CastTo<usize> for T {
 }
 pub uninterp spec fn f64_real(x: f64) -> real;
 #[verifier::external_body]
-pub broadcast proof fn ax_f64_consts()
-    ensures #[trigger] f64_real(0.0f64) == 0real, f64_real(1.0f64) == 1real, f64_real(2.0f64) == 2real, f64_real(3.0f64) == 3real {}
+pub proof fn ax_f64_consts()
+    ensures f64_real(0.0f64) == 0real, f64_real(1.0f64) == 1real, f64_real(2.0f64) == 2real, f64_real(3.0f64) == 3real {}
 impl CastTo<T> for f64 {
     open spec fn cast_spec(self) -> Option<T> { Some(mk(f64_real(self), 0, Set::empty())) }
     #[verifier::external_body]
